@@ -49,8 +49,10 @@ def cmd_check(prop, tier, seed):
     rep = None
     try:
         rep = run_property(prop)
-        check_floors(rep)
         known, unlisted = triage(rep)
+        if not unlisted:
+            # non-vacuity only gates a clean verdict: a violation found on the tree is reported as such
+            check_floors(rep)
         selftest = None
         from . import selftest as st
         if not unlisted:
